@@ -9,6 +9,7 @@ from harness import reps, build, gen
 from harness import refmodel as rm
 
 RULE = (
+    "A fifth of the configurations live on a hand-rotated orthonormal Hermitian identity-first basis (harness/covar.py); qmpt circuits are also run with a multi-axis outcome layout of the same process. "
     "A case is one tomography configuration: type (qst/povmt/qpt/qmpt) x on_para_eq_constraint x shape (1q/qutrit/2q) x "
     "tester set built physical by construction from Hypothesis-drawn Ginibre arrays (states: generic/pure/rank-deficient/"
     "mixed/diagonal/real; POVMs: Naimark/rank-1/projective/trivial/diagonal/real, outcome counts drawn per tester and forced "
@@ -239,6 +240,11 @@ def realise(case):
     c.d = d = gen.dim_of(shape)
     c.n = n = d * d
     c.basis = basis = gen.ref_basis(shape)
+    c.rot = case.get("rot")
+    if c.rot is not None:
+        from harness import covar
+
+        c.basis = basis = covar.rotated_env(shape, c.rot)[2]
     c.m = m = int(case.get("m") or 1)
     c.states = [state_mat(s) for s in case.get("states", [])]
     c.povms = [povm_mats(p) for p in case.get("povms", [])]
@@ -349,6 +355,10 @@ def build_tomo(case, c):
     from quara.protocol.qtomography.standard.standard_qst import StandardQst
 
     c_sys = build.c_sys_for(c.shape)
+    if getattr(c, "rot", None) is not None:
+        from harness import covar
+
+        c_sys = covar.rotated_env(c.shape, c.rot)[0]
     states = [build.make(c_sys, "state", v) for v in c.svecs]
     povms = [build.make(c_sys, "povm", np.concatenate(ev), m=len(ev)) for ev in c.evecs]
     from harness import reps
@@ -427,6 +437,21 @@ def check_circuit_point(c, tomo, AB, v, x, ctx, tag):
     if AB is not None:
         A, B = AB
         ctx.close(A @ v + B, g, tol, f"affine_equality:{c.tomo}", f"F(v) vs circuit at point {tag}")
+    if c.tomo == "qmpt" and c.m >= 4 and (c.m % 2 == 0 or c.m % 3 == 0) and tag == "v0":
+        # the same measurement process declared with a multi-axis outcome layout (serial order is row-major, documented):
+        # the circuit's statistics and their order do not depend on the declared layout
+        from quara.objects.mprocess import MProcess
+
+        obj = tomo.convert_var_to_qoperation(np.array(v, dtype=np.float64))
+        f = 2 if c.m % 2 == 0 else 3
+        obj2 = MProcess(obj.composite_system, [np.array(h) for h in obj.hss], shape=(f, c.m // f), is_physicality_required=False,
+                        on_para_eq_constraint=c.flag)
+        seq2 = tomo.generate_prob_dists_sequence(obj2)
+        ctx.label("circuit:multi-axis-mprocess")
+        for j in range(len(c.pairs)):
+            if not ctx.close(np.asarray(seq2[j], dtype=float).reshape(-1), ref[c.offsets[j]:c.offsets[j + 1]], tol,
+                             f"circuit_vs_born:{c.tomo}:multi_axis_layout", f"schedule {j}"):
+                break
 
 
 # ----------------------------------------------------------------------------- facet: affine_equality
@@ -540,6 +565,12 @@ def check_prob_dists(case, ctx):
     m_kw = c.m if typ in ("povm", "mprocess") else None
     # candidate built independently of convert_var_to_qoperation, with the tomography's flag
     objs = [("made", build.make(c_sys, typ, c.x0, m=m_kw, on_para_eq_constraint=c.flag), c.x0)]
+    if typ == "mprocess" and c.m >= 4 and (c.m % 2 == 0 or c.m % 3 == 0):
+        # the same measurement process declared with a multi-axis outcome layout (row-major serial order is documented):
+        # the circuit statistics and their order do not depend on how the m outcomes are laid out
+        f = 2 if c.m % 2 == 0 else 3
+        objs.append(("made_multiaxis", build.make(c_sys, typ, c.x0, m=m_kw, mshape=(f, c.m // f), on_para_eq_constraint=c.flag), c.x0))
+        ctx.label("mprocess:multi-axis-outcomes")
     # a second point on the constraint set, through the tomography's own converter
     coef = np.asarray(case.get("raw_dir", [0.5]), dtype=float)
     t = c.T @ np.array([coef[k % coef.size] for k in range(c.T.shape[1])])
@@ -881,6 +912,9 @@ def config(draw, tier, purpose):
     case["dir_idx"] = draw(st.lists(st.integers(0, 10 ** 6), min_size=12, max_size=12))
     case["raw_dir"] = draw(gen.raw(24))
     case["full_limit"] = 100 if tier == "quick" else 400
+    if draw(st.integers(0, 4)) == 0:
+        # the same experiment over a hand-rotated (orthonormal, Hermitian, identity-first) basis: harness/covar.py
+        case["rot"] = draw(gen.raw(64))
     return case
 
 
